@@ -191,8 +191,9 @@ func init() {
 		{"acPrecertEntryType", constKernel("types.go", "PrecertLogEntryType", "acPrecertEntryType", intLit)},
 		{"etypeOf", ifElseConst(hh, "addChainInternal", "isPrecert", "etype", "etypeOf",
 			map[string]string{"ct.PrecertLogEntryType": "acPrecertEntryType", "ct.X509LogEntryType": "acX509EntryType"})},
-		{"sctLeafSource", exprFact(hh, "addChainInternal", `tls\.Unmarshal\((.*), &loggedLeaf\)`, "sctLeafSource")},
-		{"sctBuiltFrom", exprFact(hh, "addChainInternal", `buildV1SCT\(li\.signer, (.*)\)`, "sctBuiltFrom")},
+		// canonical vocabulary (extract/canon.go): `$QueueLeaf` = the local holding the QueueLeaf response, `$decl(T)` = the local declared `var _ T`
+		{"sctLeafSource", semStmtFact(hh, "addChainInternal", `tls\.Unmarshal\((.*),&\$decl\(ct\.MerkleTreeLeaf\)\)`, "sctLeafSource")},
+		{"sctBuiltFrom", semStmtFact(hh, "addChainInternal", `buildV1SCT\(\$\*logInfo\.signer,(.*)\)`, "sctBuiltFrom")},
 		// ---- ct.MerkleTreeLeafFromChain
 		mk("mtlEmpty", []string{"len(chain) == 0"}, "(n : Int)"),
 		mk("mtlIsX509", []string{"etype == X509LogEntryType"}, "(etype : Int)"),
